@@ -11,11 +11,13 @@ def run(cmd, **kw):
 diff = run('git -C %s diff' % repo).stdout
 assert diff.strip(), 'no change in worktree'
 with_change = run('cd %s && /venv/bin/python demo.py' % base)
-run('git -C %s stash' % repo)
+# (no git stash: the stash list is shared by all worktrees of /repo and concurrent sub-agents would pop each other's entries)
+open(base + '/confirm.diff', 'w').write(diff)
+assert run('git -C %s apply -R %s/confirm.diff' % (repo, base)).returncode == 0, 'cannot reverse the change'
 try:
     without = run('cd %s && /venv/bin/python demo.py' % base)
 finally:
-    run('git -C %s stash pop' % repo)
+    assert run('git -C %s apply %s/confirm.diff' % (repo, base)).returncode == 0, 'cannot re-apply the change'
 print('demo with change rc=%d, without rc=%d' % (with_change.returncode, without.returncode))
 stable = set(json.load(open('/root/.vp/BASELINE.json'))['stable_pass'])
 passed = set()
